@@ -230,7 +230,24 @@ impl<'tcx> Cx<'tcx> {
 
     /// Describe an evaluated constant value of type `t`.
     fn const_value(&self, cv: ConstValue, t: Ty<'tcx>) -> String {
+        self.const_value_d(cv, t, 0)
+    }
+
+    fn const_value_d(&self, cv: ConstValue, t: Ty<'tcx>, depth: usize) -> String {
         let tcx = self.tcx;
+        // enums / structs with non-scalar fields: destructure through the compiler
+        if depth < 4 {
+            if let ty::Adt(adt, _) = t.kind() {
+                if (adt.is_enum() || adt.is_struct()) && !adt.is_box() && !matches!(cv, ConstValue::Scalar(mir::interpret::Scalar::Int(_)) if adt.is_struct()) {
+                    if let Some(d) = tcx.try_destructure_mir_constant_for_user_output(cv, t) {
+                        let vi = d.variant.map(|v| v.index()).unwrap_or(0);
+                        let vname = adt.variants().iter().nth(vi).map(|v| v.name.to_string()).unwrap_or_default();
+                        let fs: Vec<String> = d.fields.iter().map(|(fcv, fty)| format!("{{\"ty\":{},{}}}", jstr(&ty_str(*fty)), self.const_value_d(*fcv, *fty, depth + 1))).collect();
+                        return format!("\"adt2\":{{\"path\":{},\"vi\":{},\"vname\":{},\"fields\":{}}}", jstr(&path_of(tcx, adt.did())), vi, jstr(&vname), jlist(&fs));
+                    }
+                }
+            }
+        }
         match cv {
             ConstValue::Scalar(mir::interpret::Scalar::Int(si)) => {
                 let size = si.size();
@@ -257,6 +274,14 @@ impl<'tcx> Cx<'tcx> {
                         if let Some(pt) = t.builtin_deref(true) {
                             if let Some(sc) = self.struct_const(inner, off.bytes() as usize, pt) {
                                 return sc;
+                            }
+                            // generic pointee: integers and (nested) ADTs, decoded through the allocation
+                            if depth < 4 && (prim_size(pt).is_some() || matches!(pt.kind(), ty::Adt(..))) && !matches!(pt.kind(), ty::Adt(a, _) if a.is_box()) {
+                                let inner_cv = ConstValue::Indirect { alloc_id, offset: off };
+                                let nested = self.const_value_d(inner_cv, pt, depth + 1);
+                                if nested.starts_with("\"v\"") || nested.starts_with("\"adt2\"") {
+                                    return format!("\"ref\":{{{}}}", nested);
+                                }
                             }
                         }
                         let len = inner.len().saturating_sub(off.bytes() as usize);
@@ -317,6 +342,21 @@ impl<'tcx> Cx<'tcx> {
                         let inner = a.inner();
                         if let Some(sc) = self.struct_const(inner, offset.bytes() as usize, t) {
                             return sc;
+                        }
+                        if let Some(sz) = prim_size(t) {
+                            if let Some(b) = self.read_alloc_bytes(inner, offset.bytes() as usize, sz) {
+                                let mut val: u128 = 0;
+                                for (j, x) in b.iter().enumerate() {
+                                    val |= (*x as u128) << (8 * j);
+                                }
+                                let mut sv = String::new();
+                                if t.is_signed() {
+                                    let shift = 128 - 8 * sz as u32;
+                                    let s = ((val << shift) as i128) >> shift;
+                                    sv = format!(",\"sv\":{}", s);
+                                }
+                                return format!("\"v\":{}{}", val, sv);
+                            }
                         }
                         if let Some((n, esz)) = int_array_shape(tcx, t) {
                             let len = n * esz;
